@@ -5,7 +5,7 @@ from lib import *
 
 def run_check(pid, tier, seed, replay, *, tables, model_targets, prop_module, driver, corr_name, trusted, assume,
               driver_args=(), driver_timeout=3000, coqchk_modules=None, race=False, post=None, classify=None,
-              driver_env=None):
+              driver_env=None, build=None, pre=None):
     run = Run(pid, tier, seed)
     run.trusted = KERNEL_TB + list(trusted)
     run.assume = list(assume)
@@ -14,7 +14,13 @@ def run_check(pid, tier, seed, replay, *, tables, model_targets, prop_module, dr
     model_ok = not any(b.kind in ("translator", "model") for b in run.broken)
     rep = None
     try:
-        exe = go_build(driver, os.path.join(BUILD, driver), race=race)
+        if pre:
+            pre(run)
+        if build:
+            exe, benv = build(run.work)
+            driver_env = dict(driver_env or {}, **benv)
+        else:
+            exe = go_build(driver, os.path.join(BUILD, driver), race=race)
         out = os.path.join(run.work, "cases")
         cmd = [exe, "--out", out, "--tier", tier, "--seed", str(seed)] + list(driver_args)
         if replay:
